@@ -30,8 +30,9 @@ OpsU ==    { Op("WriteHeader", c, 0, 0, "") : c \in Codes }
       \cup { Op("Before", 0, 0, 0, h) : h \in HookIds }
       \cup { Op("Push", 0, 0, 0, "") }
 
-VARIABLES method, status, size, hooks, log, hist
-vars == <<method, status, size, hooks, log, hist>>
+VARIABLES method, status, size, hooks, log, hist,
+          flusher    \* whether the underlying writer implements http.Flusher (Flush commits the status either way)
+vars == <<method, status, size, hooks, log, hist, flusher>>
 
 Rev(s) == [i \in 1..Len(s) |-> s[Len(s) - i + 1]]
 \* a hook entry records the Status() the hook itself observed (v)
@@ -57,16 +58,16 @@ Apply(o) ==
             ELSE log' = Append(r.lg, Body(o.acc)) /\ size' = size + o.acc
          /\ UNCHANGED hooks
     [] o.op = "Flush" -> LET r == SendHeader(status, log, 200) IN
-         /\ status' = r.st /\ log' = Append(r.lg, Fl) /\ UNCHANGED <<size, hooks>>
+         /\ status' = r.st /\ log' = (IF flusher THEN Append(r.lg, Fl) ELSE r.lg) /\ UNCHANGED <<size, hooks>>
     [] o.op = "Before" -> /\ hooks' = Append(hooks, o.hook) /\ UNCHANGED <<status, size, log>>
     [] o.op = "Push" -> /\ log' = Append(log, Psh) /\ UNCHANGED <<status, size, hooks>>
 
 Init == /\ method \in Methods /\ status = 0 /\ size = 0
-        /\ hooks = <<>> /\ log = <<>> /\ hist = <<>>
+        /\ hooks = <<>> /\ log = <<>> /\ hist = <<>> /\ flusher \in BOOLEAN
 
 Step(o) == /\ Len(hist) < Depth
            /\ Apply(o)
-           /\ method' = method
+           /\ method' = method /\ flusher' = flusher
            /\ hist' = Append(hist, [o |-> o, status |-> status', size |-> size',
                                     written |-> status' # 0, log |-> log'])
 Next == \E o \in OpsU : Step(o)
@@ -115,6 +116,6 @@ P == P_All(method, status, size, ModelHooksAtHdr, log)
 AppendOnly == [][ /\ Len(log') >= Len(log) /\ SubSeq(log', 1, Len(log)) = log
                   /\ (status # 0 => status' = status) ]_vars
 
-EmitCase == (Emit /\ Len(hist) = Depth) => PrintT("CASE " \o ToJson([method |-> method, steps |-> hist]))
-View == <<method, status, size, hooks, log, Len(hist)>>
+EmitCase == (Emit /\ Len(hist) = Depth) => PrintT("CASE " \o ToJson([method |-> method, flusher |-> flusher, steps |-> hist]))
+View == <<method, status, size, hooks, log, Len(hist), flusher>>
 ====
